@@ -1609,7 +1609,7 @@ async fn emit_event(
 
 #[cfg(kani)]
 #[path = "/verif/harness/ripd/session.rs"]
-mod verif_kani;
+pub mod verif_kani;
 
 #[cfg(test)]
 mod tests {
